@@ -328,6 +328,8 @@ def attribute(pid, wd, fail, other_module, tag):
     p = os.path.join(wd, "attr-%s.ndjson" % tag)
     with open(p, "w") as f:
         for r in fail["run_events"]:
+            if r["ev"] == "restart" and r.get("stale"):
+                break       # the other half's spec does not cover what follows a stale restart (closed channels)
             f.write(json.dumps(r) + "\n")
     _, fl = vlib.validate_trace(pid, other_module, other_module + ".cfg", p, max_failures=1, tag="attr")
     return bool(fl) and fl[0]["pos_in_run"] <= fail["pos_in_run"]
@@ -635,6 +637,10 @@ def trace_stats(path):
                 inc(e)
                 if e == "restart" and r.get("stale"):
                     inc("restart_stale")
+                if e == "quiet" and r.get("settled"):
+                    inc("quiet_chain_settled")
+            elif e == "chain":
+                inc("chain_commitment" if r["what"] == "commitment" else "chain_htlc_claimed" if r["preimage"] else "chain_htlc_timeout")
     return c
 
 
@@ -819,9 +825,8 @@ def run_check(pid, tier, seed, mc_cfgs, compile_fn, random_fn, n_tlc, n_rand, ne
 
 
 COMMON_ASSUMPTIONS = [
-    "every node is the implementation under test; channels stay open (a run in which a channel closes is not judged "
-    "after that point): on-chain resolution of payments, including forfeited dust HTLCs, is outside these checks",
+    "every node is the implementation under test; channels close only through a restart of the payer from a stale "
+    "manager snapshot (C03) -- a run in which a channel closes otherwise is not judged at quiescence",
     "channel value 400,000 sat so that a node's summed balance fits TLC's 32-bit integers; fee estimators constant",
-    "monitor persistence completes synchronously; a node restarts only from a manager snapshot no monitor update has "
-    "overtaken (a stale manager makes LDK close the channel, i.e. leaves the off-chain scope)",
+    "monitor persistence completes synchronously",
 ]
